@@ -122,6 +122,9 @@ func (runtime *Runtime) RegisterController(ctrl controller.Controller) error {
 		},
 	)
 	if err != nil {
+		// roll back whatever the failed registration has put into the dependency database
+		runtime.depDB.DeleteController(name)
+
 		return fmt.Errorf("error initializing controller %q adapter: %w", name, err)
 	}
 
@@ -153,6 +156,9 @@ func (runtime *Runtime) RegisterQController(ctrl controller.QController) error {
 		},
 	)
 	if err != nil {
+		// roll back whatever the failed registration has put into the dependency database
+		runtime.depDB.DeleteController(name)
+
 		return fmt.Errorf("error initializing controller %q adapter: %w", name, err)
 	}
 
